@@ -70,6 +70,7 @@ def PPoll (i : Id) : PollPrims MPoll where
   sockFd _ := 0
   sockAppend m := { m with st := { m.st with sockets := m.st.sockets ++ [(i, {})] } }
   sockRemove m := { m with st := { m.st with sockets := eraseId m.st.sockets i } }
+  selIsEmpty m := m.st.selected.isEmpty
   selFind m := (lookup m.st.selected i).isSome
   selEvents m := (lookup m.st.selected i).getD {}
   setSelEvents m f := { m with st := { m.st with selected := setId m.st.selected i f } }
